@@ -9,14 +9,14 @@ from common import Driver, DriverFailure
 
 LEVEL = "proof"
 MANIFEST = dict(
-    text="Lean 4 invariants over a transition system of GeckoAsyncUdpProtocol.get for any number of concurrent callers, proved for every reachable state by  Session 4: an arrival-order monitor (no later caller is transmitted while an earlier caller has not completed). The lock shape of get() is a theorem over its regenerated suspension skeleton (get_lock_shape: every transmission while the caller holds the lock, the lock taken once per call, for every trace). Also the multi-segment request (GeckoAsyncStructure.get): every attempt consumes retry budget in both gets (every_attempt_consumes_budget over the regenerated skeletons) and the partial-loss pattern (a middle segment lost every time, the final one arriving) is driven on the real code. The answering-pings gate is searched with the real ping loop against a spa that stops answering, after silences of 150 s to two days (a week in the thorough tier), on a virtual clock that also drives time.time and datetime.now."
+    text="Lean 4 invariants over a transition system of GeckoAsyncUdpProtocol.get for any number of concurrent callers, proved for every reachable state by "
          "induction over action sequences (all arrival times, wake-up orders, reply loss/delay patterns, stalls): at most one caller inside an exchange and it is the lock "
          "holder (at_most_one_in_flight), datagrams per call <= retry count with the waiting handler built at the latest transmission (sends_bounded), callers served in "
          "call order (fifo: acquired ++ parked = called), a reply is returned only by the caller's own poll finding it (reply_was_delivered); and, without event-loop stalls, "
          "the lock is held for at most retry x (timeout + 100 ms + pause) (holder_time_bounded, potential-function invariant) and a free lock with parked callers is handed "
          "over before time passes. Tie = trace validation: real GeckoAsyncUdpProtocol.get with seeded concurrent callers of mixed retry/timeout on the virtual-time loop, "
          "scripted replies (prompt / late / never / wrong verb); every observed call, lock hand-off, poll, send, pause end and return must be enabled in the model and "
-         "agree with its send log and results. Gating is checked on the real GeckoAsyncSpa entry points.",
+         "agree with its send log and results. Gating is checked on the real GeckoAsyncSpa entry points. Session 4: an arrival-order monitor (no later caller is transmitted while an earlier caller has not completed). The lock shape of get() is a theorem over its regenerated suspension skeleton (get_lock_shape: every transmission while the caller holds the lock, the lock taken once per call, for every trace). Also the multi-segment request (GeckoAsyncStructure.get): every attempt consumes retry budget in both gets (every_attempt_consumes_budget over the regenerated skeletons) and the partial-loss pattern (a middle segment lost every time, the final one arriving) is driven on the real code. The answering-pings gate is searched with the real ping loop against a spa that stops answering, after silences of 150 s to two days (a week in the thorough tier), on a virtual clock that also drives time.time and datetime.now.",
     note="partial: time bounds hold under the fairness hypothesis (no event-loop stall), with one polling interval of slack per attempt; asyncio.Lock FIFO hand-off and "
          "'no pre-emption between awaits' are assumed (exercised by the traces). Known finding D12: the connected/ping gates are evaluated once at call entry, so a call "
          "parked on the lock can transmit after pings have gone stale.",
